@@ -30,7 +30,7 @@ Pack(bits) == [i \in 1..(Len(bits) \div 8) |->
 
 -----------------------------------------------------------------------------
 (* residual coding                                                          *)
-Fold(r) == IF r >= 0 THEN [half |-> r, odd |-> 0] ELSE [half |-> (-r) - 1, odd |-> 1]    \* v = 2*half + odd
+Fold(r) == IF r >= 0 THEN [half |-> r, odd |-> 0] ELSE [half |-> -(r + 1), odd |-> 1]    \* v = 2*half + odd
 RiceBits(r, k) ==
     LET f == Fold(r)
         \* v = 2*half + odd;  q = v >> k ; low = v mod 2^k  (computed without forming v)
@@ -68,7 +68,7 @@ ResidualFits(res, bs, order, method, po, params) ==
 
 -----------------------------------------------------------------------------
 (* residuals of a channel for a predictor: res[i] = s[ord+i] - pred          *)
-Residuals(s, coef, shift, bps) ==
+Residuals(s, coef, shift, bps, allowMin) ==
     LET ord == Len(coef)
         native == ord = 0 \/ (bps <= 30 /\ SumAbs(coef) <= P2(30 - bps))
         R(i) == LET n == ord + i - 1
@@ -78,7 +78,8 @@ Residuals(s, coef, shift, bps) ==
                     x == s[ord + i]
                     \* the residual itself must be a 32-bit value other than -2^31
                     ok == pw[1] /\ (IF x >= 0 /\ pw[2] < 0 THEN x <= 2147483647 + pw[2]
-                                    ELSE IF x < 0 /\ pw[2] > 0 THEN x >= (-2147483647) + pw[2] ELSE TRUE)
+                                    ELSE IF x < 0 /\ pw[2] > 0 THEN x >= (IF allowMin THEN (-2147483647) - 1 ELSE -2147483647) + pw[2]
+                                    ELSE allowMin \/ pw[2] # 0 \/ x # (-2147483647) - 1)
                 IN IF ok THEN <<TRUE, x - pw[2]>> ELSE <<FALSE, 0>>
         all == [i \in 1..(Len(s) - ord) |-> R(i)]
     IN [ok |-> \A i \in 1..Len(all) : all[i][1], res |-> [i \in 1..Len(all) |-> all[i][2]]]
@@ -102,7 +103,7 @@ SubframeBits(sub, ch0, bs, bps0) ==
         ord == IF ty \in {"fixed", "lpc"} THEN sub.order ELSE 0
         coef == IF ty = "fixed" THEN FixedC[ord + 1] ELSE IF ty = "lpc" THEN sub.coefs ELSE <<>>
         shift == IF ty = "lpc" THEN sub.shift ELSE 0
-        rr == IF ty \in {"fixed", "lpc"} /\ ord <= bs THEN Residuals(s, coef, shift, bps) ELSE [ok |-> ty \in {"constant", "verbatim"}, res |-> <<>>]
+        rr == IF ty \in {"fixed", "lpc"} /\ ord <= bs THEN Residuals(s, coef, shift, bps, Has(ov, "minneg")) ELSE [ok |-> ty \in {"constant", "verbatim"}, res |-> <<>>]
         method == Get(sub, "method", 0)
         po == Get(sub, "po", 0)
         params == Get(sub, "params", << <<"esc", 31>> >>)
@@ -126,6 +127,21 @@ SubframeBits(sub, ch0, bs, bps0) ==
                  /\ (ty = "lpc" => \A c \in 1..Len(coef) : EscFits(coef[c], sub.precision))
                  /\ \A i \in 1..bs : InRange(s[i], bps)
     IN [bits |-> IF valid THEN hdr \o body ELSE <<>>, ok |-> valid]
+
+(* the 33-bit side channel of 32-bit audio, CONSTANT or VERBATIM: l - r without ever forming it *)
+Side33(l, r) == WSub(WOf(l), WOf(r))
+Put33(p) == PutS(p[1], 17) \o PutU(p[2], 16)
+WideSideBits(sub, L, R, bs) ==
+    LET ov == Get(sub, "ov", [none |-> 0])
+        \* "wide" override: arbitrary <<hi, lo>> side values unrelated to left / right
+        side == IF Has(ov, "wide") THEN [i \in 1..bs |-> ov.wide[((i - 1) % Len(ov.wide)) + 1]] ELSE [i \in 1..bs |-> Side33(L[i], R[i])]
+        ty == IF sub.type = "constant" THEN "constant" ELSE "verbatim"
+        valid == ty = "constant" => \A i \in 1..bs : side[i] = side[1]
+    IN [bits |-> IF ~valid THEN <<>>
+                 ELSE <<0>> \o PutU(IF ty = "constant" THEN 0 ELSE 1, 6) \o <<0>>
+                      \o (IF ty = "constant" THEN Put33(side[1]) ELSE FoldLeft(LAMBDA a, x : a \o Put33(x), <<>>, side)),
+        ok |-> valid]
+MidOf(l, r) == (l \div 2) + (r \div 2) + (((l % 2) + (r % 2)) \div 2)          \* floor((l + r) / 2) without overflow
 
 -----------------------------------------------------------------------------
 (* frame header                                                             *)
@@ -164,11 +180,14 @@ FrameBytes(st, fr, chans, number) ==
         chcode == CASE assign = "ls" -> 8 [] assign = "sr" -> 9 [] assign = "ms" -> 10 [] OTHER -> nch - 1
         L == chans[1]
         R == IF nch >= 2 THEN chans[2] ELSE chans[1]
-        side == [i \in 1..bs |-> L[i] - R[i]]
-        mid == [i \in 1..bs |-> (L[i] + R[i]) \div 2]
+        wide == st.bps = 32 /\ assign # "indep"
+        side == IF wide THEN L ELSE [i \in 1..bs |-> L[i] - R[i]]        \* (wide: placeholder, see WideSideBits)
+        mid == [i \in 1..bs |-> MidOf(L[i], R[i])]
         vals == CASE assign = "ls" -> <<L, side>> [] assign = "sr" -> <<side, R>> [] assign = "ms" -> <<mid, side>> [] OTHER -> chans
-        depth(c) == st.bps + (IF (assign = "ls" /\ c = 2) \/ (assign = "sr" /\ c = 1) \/ (assign = "ms" /\ c = 2) THEN 1 ELSE 0)
-        subs == [c \in 1..nch |-> SubframeBits(fr.subs[((c - 1) % Len(fr.subs)) + 1], vals[c], bs, depth(c))]
+        isSide(c) == (assign = "ls" /\ c = 2) \/ (assign = "sr" /\ c = 1) \/ (assign = "ms" /\ c = 2)
+        depth(c) == st.bps + (IF isSide(c) THEN 1 ELSE 0)
+        subs == [c \in 1..nch |-> IF wide /\ isSide(c) THEN WideSideBits(fr.subs[((c - 1) % Len(fr.subs)) + 1], L, R, bs)
+                                  ELSE SubframeBits(fr.subs[((c - 1) % Len(fr.subs)) + 1], vals[c], bs, depth(c))]
         bsc == BsCode(bs, Get(fr, "bscode", "auto"))
         rc == RateCode(st.rate, Get(st, "ratecode", "table"))
         hdr0 == Pack(PutU(Get(ov, "sync", 16382), 14) \o <<Get(ov, "reserved1", 0)>> \o <<IF Get(st, "variable", FALSE) THEN 1 ELSE 0>>
